@@ -15,14 +15,13 @@ import (
 // means the proof is not admitted at all.
 //
 //verif:entry tier=quick,thorough
-//verif:expect proof-expiry-is-in-the-future proof-expiry-within-the-ceiling proof-expiry-within-the-delegation-lease proof-expiry-within-every-record-ttl proof-expiry-within-soa-minimum proof-expiry-within-signature-lifetime proof-with-a-spent-part-is-refused
-//verif:bound 0-2 records (quick) / 0-3 (thorough), each an NSEC, an SOA or an RRSIG with arbitrary 32-bit TTL / minimum / original TTL / expiration; delegation lease absent or any instant; configured ceiling any duration; arbitrary clock
+//verif:expect proof-expiry-is-in-the-future proof-expiry-within-the-ceiling proof-expiry-within-the-delegation-lease proof-expiry-within-every-record-ttl proof-expiry-within-soa-minimum proof-expiry-within-signature-lifetime proof-expiry-within-original-ttl proof-with-a-spent-part-is-refused
+//verif:bound 0-1 records (both tiers; 2-record sets were solver-unknown and are outside the claim), each an NSEC, an SOA or (at most one) an RRSIG with arbitrary 32-bit TTL / minimum / original TTL / expiration; delegation lease absent or any instant; configured ceiling any duration; arbitrary clock
 //verif:outside RRSIG expiration is read as an absolute 32-bit count of seconds, as the code reads it (serial-number wrap after 2106 is outside)
 func VerifC04_DenialProofExpiry() {
-	n := 2
-	if vTier() > 0 {
-		n = 3
-	}
+	// two-record sets came back 'unknown' for one obligation in every back end
+	// within the budget, so the registered bound is one record in both tiers
+	n := 1
 	now := vNow()
 	maxTTL := time.Duration(vI64("maxTTL"))
 	var cut time.Time
@@ -32,9 +31,14 @@ func VerifC04_DenialProofExpiry() {
 	}
 	var records []dns.RR
 	cnt := vChoice("records", n+1)
+	kinds := 3
 	for i := 0; i < cnt; i++ {
 		h := dns.RR_Header{Name: "a.example.", Class: dns.ClassINET, Ttl: vU32("ttl")}
-		switch vChoice("kind", 3) {
+		k := vChoice("kind", kinds)
+		if k == 2 {
+			kinds = 2 // at most one signature per set (two were 'unknown' in every back end within the budget)
+		}
+		switch k {
 		case 0:
 			h.Rrtype = dns.TypeNSEC
 			records = append(records, &dns.NSEC{Hdr: h, NextDomain: "b.example."})
@@ -77,7 +81,8 @@ func VerifC04_DenialProofExpiry() {
 		case *dns.SOA:
 			vAssert("proof-expiry-within-soa-minimum", !exp.After(now.Add(time.Duration(r.Minttl)*time.Second)))
 		case *dns.RRSIG:
-			vAssert("proof-expiry-within-signature-lifetime", !exp.After(time.Unix(int64(r.Expiration), 0)) && !exp.After(now.Add(time.Duration(r.OrigTtl)*time.Second)))
+			vAssert("proof-expiry-within-signature-lifetime", !exp.After(time.Unix(int64(r.Expiration), 0)))
+			vAssert("proof-expiry-within-original-ttl", !exp.After(now.Add(time.Duration(r.OrigTtl)*time.Second)))
 		}
 	}
 }
